@@ -165,7 +165,7 @@ def worker(payload):
         return np.array([[draw_value(k, j) for j in range(r)] for k in range(n)], dtype=float).reshape(n, r)
 
     def fail(clause, case, expected, got):
-        if len(failures) < 10:
+        if sum(1 for f_ in failures if f_['clause'] == clause) < 3 and len(failures) < 60:      # three records per clause
             failures.append({'clause': clause, 'case': case, 'expected': expected, 'got': got})
 
     def formula(with_draws):
@@ -423,7 +423,7 @@ def main():
              'identity/reversed/random row orders; engine path + BIOGEME likelihood/simulate with 1-3 threads; '
              'non-contiguous tables refused' % (n_datasets, '1-4' if tier == 'quick' else '1-6',
                                                 '1-3' if tier == 'quick' else '1-4', 24 if tier == 'quick' else 40))
-    print(json.dumps({'cases': cases, 'bound': bound, 'failures': failures[:10]}))
+    print(json.dumps({'cases': cases, 'bound': bound, 'failures': failures[:60]}))
     return 0 if not failures else 1
 
 
